@@ -21,6 +21,20 @@ import struct
 
 logging.getLogger("afkak").addHandler(logging.NullHandler())
 
+
+class _Escapes(logging.Handler):
+    """Collects the Failure objects the coordinator logs with `log.error("%s error during join_and_sync: %s", self, result)`:
+    the only place an exception that leaves _join_and_sync becomes visible (the log TEXT is not looked at)."""
+
+    def __init__(self):
+        logging.Handler.__init__(self, level=logging.ERROR)
+        self.failures = []
+
+    def emit(self, record):
+        for a in record.args if isinstance(record.args, tuple) else ():
+            if hasattr(a, "value") and hasattr(a, "check"):
+                self.failures.append(a)
+
 CLIENT_ID = b"c15-leader"
 GROUP = "c15-group"
 
@@ -48,6 +62,7 @@ class LeaderClient(object):
         self.loads = []  # topics asked of _load_topic_partitions, per call
         self.syncs = []  # (generation, [(member id, bytes)]) per SyncGroup request received
         self.leader_metadata = None
+        self.omit = ()  # topics a (non-conforming) loader answer leaves out in the current generation
 
     def _get_coordinator_for_group(self, group):
         from twisted.internet import defer
@@ -67,7 +82,7 @@ class LeaderClient(object):
 
         self.loads.append(sorted(topics))
         # the real client's contract: an entry for each requested topic (and only those)
-        return defer.succeed({t: list(self.cluster[t]) for t in topics})
+        return defer.succeed({t: list(self.cluster[t]) for t in topics if t not in self.omit})
 
     def _send_request_to_coordinator(self, group, payload, encoder_fn, decode_fn, **kwargs):
         from twisted.internet import defer
@@ -110,8 +125,10 @@ class LeaderClient(object):
 
 def run_history(leader_id, leader_topics, gens):
     """gens: [{"members": [[id, [topic, ...]], ...] (listing order, contains leader_id), "cluster": [[topic, [p, ...]], ...]}].
+    A generation may carry "loader_omits": [topic, ...]: the loader's answer leaves these topics out (a loader that
+    breaks its contract; the real client cannot since repo commit 9b87dea).
     -> list, one per generation: {"encs": [(id, bytes)] | None, "wire": [(id, metadata bytes)], "loads": [...],
-        "leader_got": {topic: [p]} | None, "note": text}"""
+        "leader_got": {topic: [p]} | None, "escaped": exception that left _join_and_sync | None, "idle": bool, "note": text}"""
     from twisted.internet import task
 
     from afkak._group import Coordinator, _ConsumerProtocol
@@ -128,12 +145,17 @@ def run_history(leader_id, leader_topics, gens):
     out = []
     coord = None
     errors = []
+    esc = _Escapes()
+    glog = logging.getLogger("afkak._group")
+    glog.addHandler(esc)
     try:
         coord = Leader(client, GROUP, list(leader_topics))
         for g, gen in enumerate(gens, 1):
-            rec = {"encs": None, "wire": None, "loads": None, "leader_got": None, "note": ""}
+            rec = {"encs": None, "wire": None, "loads": None, "leader_got": None, "escaped": None, "idle": False, "note": ""}
             out.append(rec)
             try:
+                n_esc = len(esc.failures)
+                client.omit = tuple(gen.get("loader_omits", ()))
                 client.cluster = dict((t, list(ps)) for t, ps in gen["cluster"])
                 client.listed = [(i, None if i == leader_id else bytes(proto.join_group_protocols(list(s))[0].protocol_metadata)) for i, s in gen["members"]]
                 n_loads, n_syncs = len(client.loads), len(client.syncs)
@@ -153,12 +175,16 @@ def run_history(leader_id, leader_topics, gens):
                     rec["encs"] = new[0][1]
                     rec["leader_got"] = got.get(client.generation)
                 else:
+                    if len(esc.failures) > n_esc:
+                        rec["escaped"] = esc.failures[-1].value
+                    rec["idle"] = not new and not clock.getDelayedCalls() and not coord._heartbeat_looper.running
                     rec["note"] = "leader sent %d SyncGroup requests in generation %d (state %s, errors %s)" % (len(new), g, getattr(coord, "_state", "?"), errors[-2:])
             except Exception as e:  # noqa: BLE001
                 rec["note"] = "generation %d: %s: %s" % (g, type(e).__name__, e)
     except Exception as e:  # noqa: BLE001
-        out.append({"encs": None, "wire": None, "loads": None, "leader_got": None, "note": "%s: %s" % (type(e).__name__, e)})
+        out.append({"encs": None, "wire": None, "loads": None, "leader_got": None, "escaped": None, "idle": False, "note": "%s: %s" % (type(e).__name__, e)})
     finally:
+        glog.removeHandler(esc)
         try:
             if coord is not None and coord._start_d is not None and not coord._stopping:
                 coord.stop()
@@ -167,3 +193,64 @@ def run_history(leader_id, leader_topics, gens):
         except Exception:  # noqa: BLE001
             pass
     return out
+
+
+def _sstr(s):
+    b = s.encode("ascii")
+    return struct.pack(">h", len(b)) + b
+
+
+def metadata_response(corr, reply):
+    """Hand-packed Metadata response v0 with no brokers; reply: [(topic, error code, [partition id, ...])]."""
+    msg = struct.pack(">ii", corr, 0) + struct.pack(">i", len(reply))
+    for topic, err, parts in reply:
+        msg += struct.pack(">h", err) + _sstr(topic) + struct.pack(">i", len(parts))
+        for p in parts:
+            msg += struct.pack(">hiii", 0, p, -1, 0) + struct.pack(">i", 0)
+    return msg
+
+
+def run_loader(asked, replies):
+    """Drive the REAL KafkaClient._load_topic_partitions(*asked): the k-th metadata request is answered with replies[k]
+    (the real decoder parses the bytes); when the replies run out the next request is never answered.
+    -> ("snap", {topic: [ids]} in dict order, requests sent) | ("pending", None, requests sent) | ("error", class name, n)"""
+    from twisted.internet import defer, task
+
+    from afkak.client import KafkaClient
+
+    clock = task.Clock()
+    client = KafkaClient("c15-loader:9092", reactor=clock, retry_policy=lambda attempt: 0.5)
+    sent = []
+
+    def answer(correlation_id, request):
+        sent.append(correlation_id)
+        if len(sent) > len(replies):
+            return defer.Deferred()
+        return defer.succeed(metadata_response(correlation_id, replies[len(sent) - 1]))
+
+    client._send_broker_unaware_request = answer
+    out = []
+    try:
+        d = client._load_topic_partitions(*asked)
+        d.addBoth(out.append)
+        for _ in range(2 * len(replies) + 4):
+            if out:
+                break
+            clock.advance(0.5)
+    except Exception as e:  # noqa: BLE001
+        return "error", type(e).__name__, len(sent)
+    finally:
+        try:
+            for dc in clock.getDelayedCalls():
+                dc.cancel()
+        except Exception:  # noqa: BLE001
+            pass
+    if not out:
+        return "pending", None, len(sent)
+    r = out[0]
+    if hasattr(r, "check") and hasattr(r, "value"):
+        return "error", type(r.value).__name__, len(sent)
+    try:
+        return "snap", [(str(t), [int(p) for p in ps]) for t, ps in r.items()], len(sent)
+    except Exception as e:  # noqa: BLE001
+        return "error", "shape-changed " + type(e).__name__, len(sent)
